@@ -1,0 +1,1311 @@
+	.file	"testall.c"
+	.text
+.Ltext0:
+	.file 0 "/repo/aldor/aldor/src" "test/testall.c"
+	.local	theArgc
+	.comm	theArgc,4,4
+	.local	theArgv
+	.comm	theArgv,8,8
+	.globl	testShouldRun
+	.type	testShouldRun, @function
+testShouldRun:
+.LFB0:
+	.file 1 "test/testall.c"
+	.loc 1 15 1
+	.cfi_startproc
+	pushq	%rbp
+	.cfi_def_cfa_offset 16
+	.cfi_offset 6, -16
+	movq	%rsp, %rbp
+	.cfi_def_cfa_register 6
+	subq	$32, %rsp
+	movq	%rdi, -24(%rbp)
+	.loc 1 18 14
+	movl	theArgc(%rip), %eax
+	.loc 1 18 5
+	cmpl	$1, %eax
+	jne	.L2
+	.loc 1 19 10
+	movl	$1, %eax
+	jmp	.L3
+.L2:
+	.loc 1 21 8
+	movl	$1, -4(%rbp)
+	.loc 1 21 2
+	jmp	.L4
+.L6:
+	.loc 1 22 21
+	movq	theArgv(%rip), %rax
+	movl	-4(%rbp), %edx
+	movslq	%edx, %rdx
+	salq	$3, %rdx
+	addq	%rdx, %rax
+	.loc 1 22 7
+	movq	(%rax), %rax
+	movq	-24(%rbp), %rdx
+	movq	%rdx, %rsi
+	movq	%rax, %rdi
+	call	strcmp@PLT
+	.loc 1 22 6
+	testl	%eax, %eax
+	jne	.L5
+	.loc 1 23 11
+	movl	$1, %eax
+	jmp	.L3
+.L5:
+	.loc 1 21 24 discriminator 2
+	addl	$1, -4(%rbp)
+.L4:
+	.loc 1 21 13 discriminator 1
+	movl	theArgc(%rip), %eax
+	cmpl	%eax, -4(%rbp)
+	jl	.L6
+	.loc 1 26 9
+	movl	$0, %eax
+.L3:
+	.loc 1 27 1
+	leave
+	.cfi_def_cfa 7, 8
+	ret
+	.cfi_endproc
+.LFE0:
+	.size	testShouldRun, .-testShouldRun
+	.section	.rodata
+.LC0:
+	.string	"printf"
+.LC1:
+	.string	"ostream"
+.LC2:
+	.string	"float"
+.LC3:
+	.string	"int"
+.LC4:
+	.string	"bigint"
+.LC5:
+	.string	"errorset"
+.LC6:
+	.string	"bitv"
+.LC7:
+	.string	"list"
+.LC8:
+	.string	"tset"
+.LC9:
+	.string	"fname"
+.LC10:
+	.string	"archive"
+.LC11:
+	.string	"foam"
+.LC12:
+	.string	"forg"
+.LC13:
+	.string	"format"
+.LC14:
+	.string	"flog"
+.LC15:
+	.string	"java"
+.LC16:
+	.string	"jflow"
+.LC17:
+	.string	"jcode"
+.LC18:
+	.string	"tinfer"
+.LC19:
+	.string	"stab"
+.LC20:
+	.string	"srcpos"
+.LC21:
+	.string	"absyn"
+.LC22:
+	.string	"abnorm"
+.LC23:
+	.string	"abcheck"
+.LC24:
+	.string	"ablog"
+.LC25:
+	.string	"tform"
+.LC26:
+	.string	"scobind"
+.LC27:
+	.string	"syme"
+.LC28:
+	.string	"symeset"
+.LC29:
+	.string	"tibup"
+.LC30:
+	.string	"tfsat"
+.LC31:
+	.string	"annabs"
+.LC32:
+	.string	"retype"
+.LC33:
+	.string	"genfoam"
+.LC34:
+	.string	"tposs"
+.LC35:
+	.string	"fluidlevel"
+	.text
+	.globl	main
+	.type	main, @function
+main:
+.LFB1:
+	.loc 1 31 1
+	.cfi_startproc
+	pushq	%rbp
+	.cfi_def_cfa_offset 16
+	.cfi_offset 6, -16
+	movq	%rsp, %rbp
+	.cfi_def_cfa_register 6
+	subq	$16, %rsp
+	movl	%edi, -4(%rbp)
+	movq	%rsi, -16(%rbp)
+	.loc 1 32 10
+	movl	-4(%rbp), %eax
+	movl	%eax, theArgc(%rip)
+	.loc 1 33 10
+	movq	-16(%rbp), %rax
+	movq	%rax, theArgv(%rip)
+	.loc 1 35 6
+	leaq	.LC0(%rip), %rax
+	movq	%rax, %rdi
+	call	testShouldRun
+	.loc 1 35 5
+	testl	%eax, %eax
+	je	.L8
+	.loc 1 35 31 discriminator 1
+	call	printfTest@PLT
+.L8:
+	.loc 1 36 6
+	leaq	.LC1(%rip), %rax
+	movq	%rax, %rdi
+	call	testShouldRun
+	.loc 1 36 5
+	testl	%eax, %eax
+	je	.L9
+	.loc 1 36 32 discriminator 1
+	call	ostreamTest@PLT
+.L9:
+	.loc 1 37 6
+	leaq	.LC2(%rip), %rax
+	movq	%rax, %rdi
+	call	testShouldRun
+	.loc 1 37 5
+	testl	%eax, %eax
+	je	.L10
+	.loc 1 37 30 discriminator 1
+	call	floatTestSuite@PLT
+.L10:
+	.loc 1 38 6
+	leaq	.LC3(%rip), %rax
+	movq	%rax, %rdi
+	call	testShouldRun
+	.loc 1 38 5
+	testl	%eax, %eax
+	je	.L11
+	.loc 1 38 28 discriminator 1
+	call	intTestSuite@PLT
+.L11:
+	.loc 1 39 6
+	leaq	.LC4(%rip), %rax
+	movq	%rax, %rdi
+	call	testShouldRun
+	.loc 1 39 5
+	testl	%eax, %eax
+	je	.L12
+	.loc 1 39 31 discriminator 1
+	call	bintTestSuite@PLT
+.L12:
+	.loc 1 40 6
+	leaq	.LC5(%rip), %rax
+	movq	%rax, %rdi
+	call	testShouldRun
+	.loc 1 40 5
+	testl	%eax, %eax
+	je	.L13
+	.loc 1 40 33 discriminator 1
+	call	errorSetTestSuite@PLT
+.L13:
+	.loc 1 41 6
+	leaq	.LC6(%rip), %rax
+	movq	%rax, %rdi
+	call	testShouldRun
+	.loc 1 41 5
+	testl	%eax, %eax
+	je	.L14
+	.loc 1 41 29 discriminator 1
+	call	bitvTestSuite@PLT
+.L14:
+	.loc 1 42 6
+	leaq	.LC7(%rip), %rax
+	movq	%rax, %rdi
+	call	testShouldRun
+	.loc 1 42 5
+	testl	%eax, %eax
+	je	.L15
+	.loc 1 42 29 discriminator 1
+	call	listTestSuite@PLT
+.L15:
+	.loc 1 43 6
+	leaq	.LC8(%rip), %rax
+	movq	%rax, %rdi
+	call	testShouldRun
+	.loc 1 43 5
+	testl	%eax, %eax
+	je	.L16
+	.loc 1 43 29 discriminator 1
+	call	tsetTestSuite@PLT
+.L16:
+	.loc 1 44 6
+	leaq	.LC9(%rip), %rax
+	movq	%rax, %rdi
+	call	testShouldRun
+	.loc 1 44 5
+	testl	%eax, %eax
+	je	.L17
+	.loc 1 44 30 discriminator 1
+	call	fnameTest@PLT
+.L17:
+	.loc 1 45 6
+	leaq	.LC10(%rip), %rax
+	movq	%rax, %rdi
+	call	testShouldRun
+	.loc 1 45 5
+	testl	%eax, %eax
+	je	.L18
+	.loc 1 45 32 discriminator 1
+	call	archiveTestSuite@PLT
+.L18:
+	.loc 1 46 6
+	leaq	.LC11(%rip), %rax
+	movq	%rax, %rdi
+	call	testShouldRun
+	.loc 1 46 5
+	testl	%eax, %eax
+	je	.L19
+	.loc 1 46 29 discriminator 1
+	call	foamTest@PLT
+.L19:
+	.loc 1 47 6
+	leaq	.LC12(%rip), %rax
+	movq	%rax, %rdi
+	call	testShouldRun
+	.loc 1 47 5
+	testl	%eax, %eax
+	je	.L20
+	.loc 1 47 29 discriminator 1
+	call	forgTest@PLT
+.L20:
+	.loc 1 48 6
+	leaq	.LC13(%rip), %rax
+	movq	%rax, %rdi
+	call	testShouldRun
+	.loc 1 48 5
+	testl	%eax, %eax
+	je	.L21
+	.loc 1 48 31 discriminator 1
+	call	formatTest@PLT
+.L21:
+	.loc 1 49 6
+	leaq	.LC14(%rip), %rax
+	movq	%rax, %rdi
+	call	testShouldRun
+	.loc 1 49 5
+	testl	%eax, %eax
+	je	.L22
+	.loc 1 49 29 discriminator 1
+	call	flogTest@PLT
+.L22:
+	.loc 1 50 6
+	leaq	.LC15(%rip), %rax
+	movq	%rax, %rdi
+	call	testShouldRun
+	.loc 1 50 5
+	testl	%eax, %eax
+	je	.L23
+	.loc 1 50 29 discriminator 1
+	call	javaTestSuite@PLT
+.L23:
+	.loc 1 51 6
+	leaq	.LC16(%rip), %rax
+	movq	%rax, %rdi
+	call	testShouldRun
+	.loc 1 51 5
+	testl	%eax, %eax
+	je	.L24
+	.loc 1 51 30 discriminator 1
+	call	jflowTest@PLT
+.L24:
+	.loc 1 52 6
+	leaq	.LC17(%rip), %rax
+	movq	%rax, %rdi
+	call	testShouldRun
+	.loc 1 52 5
+	testl	%eax, %eax
+	je	.L25
+	.loc 1 52 30 discriminator 1
+	call	jcodeTest@PLT
+.L25:
+	.loc 1 53 6
+	leaq	.LC18(%rip), %rax
+	movq	%rax, %rdi
+	call	testShouldRun
+	.loc 1 53 5
+	testl	%eax, %eax
+	je	.L26
+	.loc 1 53 31 discriminator 1
+	call	tinferTest@PLT
+.L26:
+	.loc 1 54 6
+	leaq	.LC19(%rip), %rax
+	movq	%rax, %rdi
+	call	testShouldRun
+	.loc 1 54 5
+	testl	%eax, %eax
+	je	.L27
+	.loc 1 54 29 discriminator 1
+	call	stabTest@PLT
+.L27:
+	.loc 1 55 6
+	leaq	.LC20(%rip), %rax
+	movq	%rax, %rdi
+	call	testShouldRun
+	.loc 1 55 5
+	testl	%eax, %eax
+	je	.L28
+	.loc 1 55 31 discriminator 1
+	call	srcposTest@PLT
+.L28:
+	.loc 1 56 6
+	leaq	.LC21(%rip), %rax
+	movq	%rax, %rdi
+	call	testShouldRun
+	.loc 1 56 5
+	testl	%eax, %eax
+	je	.L29
+	.loc 1 56 30 discriminator 1
+	call	absynTest@PLT
+.L29:
+	.loc 1 57 6
+	leaq	.LC22(%rip), %rax
+	movq	%rax, %rdi
+	call	testShouldRun
+	.loc 1 57 5
+	testl	%eax, %eax
+	je	.L30
+	.loc 1 57 31 discriminator 1
+	call	abnormTest@PLT
+.L30:
+	.loc 1 58 6
+	leaq	.LC23(%rip), %rax
+	movq	%rax, %rdi
+	call	testShouldRun
+	.loc 1 58 5
+	testl	%eax, %eax
+	je	.L31
+	.loc 1 58 32 discriminator 1
+	call	abcheckTest@PLT
+.L31:
+	.loc 1 59 6
+	leaq	.LC24(%rip), %rax
+	movq	%rax, %rdi
+	call	testShouldRun
+	.loc 1 59 5
+	testl	%eax, %eax
+	je	.L32
+	.loc 1 59 30 discriminator 1
+	call	ablogTest@PLT
+.L32:
+	.loc 1 60 6
+	leaq	.LC25(%rip), %rax
+	movq	%rax, %rdi
+	call	testShouldRun
+	.loc 1 60 5
+	testl	%eax, %eax
+	je	.L33
+	.loc 1 60 30 discriminator 1
+	call	tformTest@PLT
+.L33:
+	.loc 1 61 6
+	leaq	.LC26(%rip), %rax
+	movq	%rax, %rdi
+	call	testShouldRun
+	.loc 1 61 5
+	testl	%eax, %eax
+	je	.L34
+	.loc 1 61 32 discriminator 1
+	call	scobindTest@PLT
+.L34:
+	.loc 1 62 6
+	leaq	.LC27(%rip), %rax
+	movq	%rax, %rdi
+	call	testShouldRun
+	.loc 1 62 5
+	testl	%eax, %eax
+	je	.L35
+	.loc 1 62 29 discriminator 1
+	call	symeTest@PLT
+.L35:
+	.loc 1 63 6
+	leaq	.LC28(%rip), %rax
+	movq	%rax, %rdi
+	call	testShouldRun
+	.loc 1 63 5
+	testl	%eax, %eax
+	je	.L36
+	.loc 1 63 32 discriminator 1
+	call	symeSetTestSuite@PLT
+.L36:
+	.loc 1 64 6
+	leaq	.LC29(%rip), %rax
+	movq	%rax, %rdi
+	call	testShouldRun
+	.loc 1 64 5
+	testl	%eax, %eax
+	je	.L37
+	.loc 1 64 30 discriminator 1
+	call	tibupTest@PLT
+.L37:
+	.loc 1 65 6
+	leaq	.LC30(%rip), %rax
+	movq	%rax, %rdi
+	call	testShouldRun
+	.loc 1 65 5
+	testl	%eax, %eax
+	je	.L38
+	.loc 1 65 30 discriminator 1
+	call	tfsatTest@PLT
+.L38:
+	.loc 1 66 6
+	leaq	.LC31(%rip), %rax
+	movq	%rax, %rdi
+	call	testShouldRun
+	.loc 1 66 5
+	testl	%eax, %eax
+	je	.L39
+	.loc 1 66 31 discriminator 1
+	call	annotateAbSynTest@PLT
+.L39:
+	.loc 1 67 6
+	leaq	.LC32(%rip), %rax
+	movq	%rax, %rdi
+	call	testShouldRun
+	.loc 1 67 5
+	testl	%eax, %eax
+	je	.L40
+	.loc 1 67 31 discriminator 1
+	call	retypeTest@PLT
+.L40:
+	.loc 1 68 6
+	leaq	.LC33(%rip), %rax
+	movq	%rax, %rdi
+	call	testShouldRun
+	.loc 1 68 5
+	testl	%eax, %eax
+	je	.L41
+	.loc 1 68 32 discriminator 1
+	call	genfoamTestSuite@PLT
+.L41:
+	.loc 1 69 6
+	leaq	.LC34(%rip), %rax
+	movq	%rax, %rdi
+	call	testShouldRun
+	.loc 1 69 5
+	testl	%eax, %eax
+	je	.L42
+	.loc 1 69 30 discriminator 1
+	call	tpossTest@PLT
+.L42:
+	.loc 1 71 2
+	movl	fluidLevel(%rip), %eax
+	movl	%eax, %edx
+	movl	$0, %esi
+	leaq	.LC35(%rip), %rax
+	movq	%rax, %rdi
+	call	testIntEqual@PLT
+	.loc 1 73 2
+	movl	$0, %eax
+	call	testShowSummary@PLT
+	.loc 1 75 9
+	movl	$0, %eax
+	call	testAllPassed@PLT
+	.loc 1 75 29
+	testl	%eax, %eax
+	sete	%al
+	movzbl	%al, %eax
+	.loc 1 76 1
+	leave
+	.cfi_def_cfa 7, 8
+	ret
+	.cfi_endproc
+.LFE1:
+	.size	main, .-main
+.Letext0:
+	.file 2 "test/testlib.h"
+	.file 3 "test/testall.h"
+	.file 4 "./cport.h"
+	.file 5 "/usr/include/string.h"
+	.section	.debug_info,"",@progbits
+.Ldebug_info0:
+	.long	0x278
+	.value	0x5
+	.byte	0x1
+	.byte	0x8
+	.long	.Ldebug_abbrev0
+	.uleb128 0x8
+	.long	.LASF55
+	.byte	0xc
+	.long	.LASF0
+	.long	.LASF1
+	.quad	.Ltext0
+	.quad	.Letext0-.Ltext0
+	.long	.Ldebug_line0
+	.uleb128 0x2
+	.byte	0x8
+	.byte	0x7
+	.long	.LASF2
+	.uleb128 0x2
+	.byte	0x4
+	.byte	0x7
+	.long	.LASF3
+	.uleb128 0x2
+	.byte	0x1
+	.byte	0x8
+	.long	.LASF4
+	.uleb128 0x2
+	.byte	0x2
+	.byte	0x7
+	.long	.LASF5
+	.uleb128 0x2
+	.byte	0x1
+	.byte	0x6
+	.long	.LASF6
+	.uleb128 0x2
+	.byte	0x2
+	.byte	0x5
+	.long	.LASF7
+	.uleb128 0x9
+	.byte	0x4
+	.byte	0x5
+	.string	"int"
+	.uleb128 0x2
+	.byte	0x8
+	.byte	0x5
+	.long	.LASF8
+	.uleb128 0x4
+	.long	0x6b
+	.uleb128 0x2
+	.byte	0x1
+	.byte	0x6
+	.long	.LASF9
+	.uleb128 0xa
+	.long	0x6b
+	.uleb128 0x2
+	.byte	0x8
+	.byte	0x5
+	.long	.LASF10
+	.uleb128 0x2
+	.byte	0x4
+	.byte	0x4
+	.long	.LASF11
+	.uleb128 0x2
+	.byte	0x8
+	.byte	0x4
+	.long	.LASF12
+	.uleb128 0x4
+	.long	0x72
+	.uleb128 0xb
+	.long	.LASF56
+	.byte	0x4
+	.value	0x16a
+	.byte	0xf
+	.long	0x66
+	.uleb128 0x6
+	.long	.LASF13
+	.byte	0x8
+	.byte	0xc
+	.long	0x58
+	.uleb128 0x9
+	.byte	0x3
+	.quad	theArgc
+	.uleb128 0x6
+	.long	.LASF14
+	.byte	0x9
+	.byte	0xf
+	.long	0xc8
+	.uleb128 0x9
+	.byte	0x3
+	.quad	theArgv
+	.uleb128 0x4
+	.long	0x66
+	.uleb128 0xc
+	.long	.LASF57
+	.byte	0x1
+	.byte	0xb
+	.byte	0xc
+	.long	0x58
+	.uleb128 0xd
+	.long	.LASF15
+	.byte	0x2
+	.byte	0x13
+	.byte	0x5
+	.long	0x58
+	.long	0xeb
+	.uleb128 0x7
+	.byte	0
+	.uleb128 0xe
+	.long	.LASF58
+	.byte	0x2
+	.byte	0x12
+	.byte	0x6
+	.long	0xf9
+	.uleb128 0x7
+	.byte	0
+	.uleb128 0xf
+	.long	.LASF16
+	.byte	0x2
+	.byte	0x8
+	.byte	0x6
+	.long	0x115
+	.uleb128 0x3
+	.long	0x91
+	.uleb128 0x3
+	.long	0x58
+	.uleb128 0x3
+	.long	0x58
+	.byte	0
+	.uleb128 0x1
+	.long	.LASF17
+	.byte	0x26
+	.uleb128 0x1
+	.long	.LASF18
+	.byte	0x14
+	.uleb128 0x1
+	.long	.LASF19
+	.byte	0x1c
+	.uleb128 0x1
+	.long	.LASF20
+	.byte	0x8
+	.uleb128 0x1
+	.long	.LASF21
+	.byte	0x23
+	.uleb128 0x1
+	.long	.LASF22
+	.byte	0x24
+	.uleb128 0x1
+	.long	.LASF23
+	.byte	0x21
+	.uleb128 0x1
+	.long	.LASF24
+	.byte	0x20
+	.uleb128 0x1
+	.long	.LASF25
+	.byte	0x1d
+	.uleb128 0x1
+	.long	.LASF26
+	.byte	0x22
+	.uleb128 0x1
+	.long	.LASF27
+	.byte	0x5
+	.uleb128 0x1
+	.long	.LASF28
+	.byte	0x4
+	.uleb128 0x1
+	.long	.LASF29
+	.byte	0x6
+	.uleb128 0x1
+	.long	.LASF30
+	.byte	0x7
+	.uleb128 0x1
+	.long	.LASF31
+	.byte	0x1e
+	.uleb128 0x1
+	.long	.LASF32
+	.byte	0x1f
+	.uleb128 0x1
+	.long	.LASF33
+	.byte	0x25
+	.uleb128 0x1
+	.long	.LASF34
+	.byte	0x17
+	.uleb128 0x1
+	.long	.LASF35
+	.byte	0x18
+	.uleb128 0x1
+	.long	.LASF36
+	.byte	0x16
+	.uleb128 0x1
+	.long	.LASF37
+	.byte	0xf
+	.uleb128 0x1
+	.long	.LASF38
+	.byte	0x13
+	.uleb128 0x1
+	.long	.LASF39
+	.byte	0x12
+	.uleb128 0x1
+	.long	.LASF40
+	.byte	0x11
+	.uleb128 0x1
+	.long	.LASF41
+	.byte	0x9
+	.uleb128 0x1
+	.long	.LASF42
+	.byte	0x10
+	.uleb128 0x1
+	.long	.LASF43
+	.byte	0x27
+	.uleb128 0x1
+	.long	.LASF44
+	.byte	0x19
+	.uleb128 0x1
+	.long	.LASF45
+	.byte	0xc
+	.uleb128 0x1
+	.long	.LASF46
+	.byte	0xd
+	.uleb128 0x1
+	.long	.LASF47
+	.byte	0xb
+	.uleb128 0x1
+	.long	.LASF48
+	.byte	0x15
+	.uleb128 0x1
+	.long	.LASF49
+	.byte	0xe
+	.uleb128 0x1
+	.long	.LASF50
+	.byte	0x1a
+	.uleb128 0x1
+	.long	.LASF51
+	.byte	0x1b
+	.uleb128 0x10
+	.long	.LASF59
+	.byte	0x5
+	.byte	0x9c
+	.byte	0xc
+	.long	0x58
+	.long	0x202
+	.uleb128 0x3
+	.long	0x8c
+	.uleb128 0x3
+	.long	0x8c
+	.byte	0
+	.uleb128 0x11
+	.long	.LASF60
+	.byte	0x1
+	.byte	0x1e
+	.byte	0x1
+	.long	0x58
+	.quad	.LFB1
+	.quad	.LFE1-.LFB1
+	.uleb128 0x1
+	.byte	0x9c
+	.long	0x241
+	.uleb128 0x5
+	.long	.LASF52
+	.byte	0x1e
+	.byte	0xa
+	.long	0x58
+	.uleb128 0x2
+	.byte	0x91
+	.sleb128 -20
+	.uleb128 0x5
+	.long	.LASF53
+	.byte	0x1e
+	.byte	0x16
+	.long	0xc8
+	.uleb128 0x2
+	.byte	0x91
+	.sleb128 -32
+	.byte	0
+	.uleb128 0x12
+	.long	.LASF61
+	.byte	0x1
+	.byte	0xe
+	.byte	0x1
+	.long	0x58
+	.quad	.LFB0
+	.quad	.LFE0-.LFB0
+	.uleb128 0x1
+	.byte	0x9c
+	.uleb128 0x5
+	.long	.LASF54
+	.byte	0xe
+	.byte	0x15
+	.long	0x66
+	.uleb128 0x2
+	.byte	0x91
+	.sleb128 -40
+	.uleb128 0x13
+	.string	"i"
+	.byte	0x1
+	.byte	0x10
+	.byte	0x6
+	.long	0x58
+	.uleb128 0x2
+	.byte	0x91
+	.sleb128 -20
+	.byte	0
+	.byte	0
+	.section	.debug_abbrev,"",@progbits
+.Ldebug_abbrev0:
+	.uleb128 0x1
+	.uleb128 0x2e
+	.byte	0
+	.uleb128 0x3f
+	.uleb128 0x19
+	.uleb128 0x3
+	.uleb128 0xe
+	.uleb128 0x3a
+	.uleb128 0x21
+	.sleb128 3
+	.uleb128 0x3b
+	.uleb128 0xb
+	.uleb128 0x39
+	.uleb128 0x21
+	.sleb128 6
+	.uleb128 0x27
+	.uleb128 0x19
+	.uleb128 0x3c
+	.uleb128 0x19
+	.byte	0
+	.byte	0
+	.uleb128 0x2
+	.uleb128 0x24
+	.byte	0
+	.uleb128 0xb
+	.uleb128 0xb
+	.uleb128 0x3e
+	.uleb128 0xb
+	.uleb128 0x3
+	.uleb128 0xe
+	.byte	0
+	.byte	0
+	.uleb128 0x3
+	.uleb128 0x5
+	.byte	0
+	.uleb128 0x49
+	.uleb128 0x13
+	.byte	0
+	.byte	0
+	.uleb128 0x4
+	.uleb128 0xf
+	.byte	0
+	.uleb128 0xb
+	.uleb128 0x21
+	.sleb128 8
+	.uleb128 0x49
+	.uleb128 0x13
+	.byte	0
+	.byte	0
+	.uleb128 0x5
+	.uleb128 0x5
+	.byte	0
+	.uleb128 0x3
+	.uleb128 0xe
+	.uleb128 0x3a
+	.uleb128 0x21
+	.sleb128 1
+	.uleb128 0x3b
+	.uleb128 0xb
+	.uleb128 0x39
+	.uleb128 0xb
+	.uleb128 0x49
+	.uleb128 0x13
+	.uleb128 0x2
+	.uleb128 0x18
+	.byte	0
+	.byte	0
+	.uleb128 0x6
+	.uleb128 0x34
+	.byte	0
+	.uleb128 0x3
+	.uleb128 0xe
+	.uleb128 0x3a
+	.uleb128 0x21
+	.sleb128 1
+	.uleb128 0x3b
+	.uleb128 0xb
+	.uleb128 0x39
+	.uleb128 0xb
+	.uleb128 0x49
+	.uleb128 0x13
+	.uleb128 0x2
+	.uleb128 0x18
+	.byte	0
+	.byte	0
+	.uleb128 0x7
+	.uleb128 0x18
+	.byte	0
+	.byte	0
+	.byte	0
+	.uleb128 0x8
+	.uleb128 0x11
+	.byte	0x1
+	.uleb128 0x25
+	.uleb128 0xe
+	.uleb128 0x13
+	.uleb128 0xb
+	.uleb128 0x3
+	.uleb128 0x1f
+	.uleb128 0x1b
+	.uleb128 0x1f
+	.uleb128 0x11
+	.uleb128 0x1
+	.uleb128 0x12
+	.uleb128 0x7
+	.uleb128 0x10
+	.uleb128 0x17
+	.byte	0
+	.byte	0
+	.uleb128 0x9
+	.uleb128 0x24
+	.byte	0
+	.uleb128 0xb
+	.uleb128 0xb
+	.uleb128 0x3e
+	.uleb128 0xb
+	.uleb128 0x3
+	.uleb128 0x8
+	.byte	0
+	.byte	0
+	.uleb128 0xa
+	.uleb128 0x26
+	.byte	0
+	.uleb128 0x49
+	.uleb128 0x13
+	.byte	0
+	.byte	0
+	.uleb128 0xb
+	.uleb128 0x16
+	.byte	0
+	.uleb128 0x3
+	.uleb128 0xe
+	.uleb128 0x3a
+	.uleb128 0xb
+	.uleb128 0x3b
+	.uleb128 0x5
+	.uleb128 0x39
+	.uleb128 0xb
+	.uleb128 0x49
+	.uleb128 0x13
+	.byte	0
+	.byte	0
+	.uleb128 0xc
+	.uleb128 0x34
+	.byte	0
+	.uleb128 0x3
+	.uleb128 0xe
+	.uleb128 0x3a
+	.uleb128 0xb
+	.uleb128 0x3b
+	.uleb128 0xb
+	.uleb128 0x39
+	.uleb128 0xb
+	.uleb128 0x49
+	.uleb128 0x13
+	.uleb128 0x3f
+	.uleb128 0x19
+	.uleb128 0x3c
+	.uleb128 0x19
+	.byte	0
+	.byte	0
+	.uleb128 0xd
+	.uleb128 0x2e
+	.byte	0x1
+	.uleb128 0x3f
+	.uleb128 0x19
+	.uleb128 0x3
+	.uleb128 0xe
+	.uleb128 0x3a
+	.uleb128 0xb
+	.uleb128 0x3b
+	.uleb128 0xb
+	.uleb128 0x39
+	.uleb128 0xb
+	.uleb128 0x49
+	.uleb128 0x13
+	.uleb128 0x3c
+	.uleb128 0x19
+	.uleb128 0x1
+	.uleb128 0x13
+	.byte	0
+	.byte	0
+	.uleb128 0xe
+	.uleb128 0x2e
+	.byte	0x1
+	.uleb128 0x3f
+	.uleb128 0x19
+	.uleb128 0x3
+	.uleb128 0xe
+	.uleb128 0x3a
+	.uleb128 0xb
+	.uleb128 0x3b
+	.uleb128 0xb
+	.uleb128 0x39
+	.uleb128 0xb
+	.uleb128 0x3c
+	.uleb128 0x19
+	.uleb128 0x1
+	.uleb128 0x13
+	.byte	0
+	.byte	0
+	.uleb128 0xf
+	.uleb128 0x2e
+	.byte	0x1
+	.uleb128 0x3f
+	.uleb128 0x19
+	.uleb128 0x3
+	.uleb128 0xe
+	.uleb128 0x3a
+	.uleb128 0xb
+	.uleb128 0x3b
+	.uleb128 0xb
+	.uleb128 0x39
+	.uleb128 0xb
+	.uleb128 0x27
+	.uleb128 0x19
+	.uleb128 0x3c
+	.uleb128 0x19
+	.uleb128 0x1
+	.uleb128 0x13
+	.byte	0
+	.byte	0
+	.uleb128 0x10
+	.uleb128 0x2e
+	.byte	0x1
+	.uleb128 0x3f
+	.uleb128 0x19
+	.uleb128 0x3
+	.uleb128 0xe
+	.uleb128 0x3a
+	.uleb128 0xb
+	.uleb128 0x3b
+	.uleb128 0xb
+	.uleb128 0x39
+	.uleb128 0xb
+	.uleb128 0x27
+	.uleb128 0x19
+	.uleb128 0x49
+	.uleb128 0x13
+	.uleb128 0x3c
+	.uleb128 0x19
+	.uleb128 0x1
+	.uleb128 0x13
+	.byte	0
+	.byte	0
+	.uleb128 0x11
+	.uleb128 0x2e
+	.byte	0x1
+	.uleb128 0x3f
+	.uleb128 0x19
+	.uleb128 0x3
+	.uleb128 0xe
+	.uleb128 0x3a
+	.uleb128 0xb
+	.uleb128 0x3b
+	.uleb128 0xb
+	.uleb128 0x39
+	.uleb128 0xb
+	.uleb128 0x27
+	.uleb128 0x19
+	.uleb128 0x49
+	.uleb128 0x13
+	.uleb128 0x11
+	.uleb128 0x1
+	.uleb128 0x12
+	.uleb128 0x7
+	.uleb128 0x40
+	.uleb128 0x18
+	.uleb128 0x7c
+	.uleb128 0x19
+	.uleb128 0x1
+	.uleb128 0x13
+	.byte	0
+	.byte	0
+	.uleb128 0x12
+	.uleb128 0x2e
+	.byte	0x1
+	.uleb128 0x3f
+	.uleb128 0x19
+	.uleb128 0x3
+	.uleb128 0xe
+	.uleb128 0x3a
+	.uleb128 0xb
+	.uleb128 0x3b
+	.uleb128 0xb
+	.uleb128 0x39
+	.uleb128 0xb
+	.uleb128 0x27
+	.uleb128 0x19
+	.uleb128 0x49
+	.uleb128 0x13
+	.uleb128 0x11
+	.uleb128 0x1
+	.uleb128 0x12
+	.uleb128 0x7
+	.uleb128 0x40
+	.uleb128 0x18
+	.uleb128 0x7c
+	.uleb128 0x19
+	.byte	0
+	.byte	0
+	.uleb128 0x13
+	.uleb128 0x34
+	.byte	0
+	.uleb128 0x3
+	.uleb128 0x8
+	.uleb128 0x3a
+	.uleb128 0xb
+	.uleb128 0x3b
+	.uleb128 0xb
+	.uleb128 0x39
+	.uleb128 0xb
+	.uleb128 0x49
+	.uleb128 0x13
+	.uleb128 0x2
+	.uleb128 0x18
+	.byte	0
+	.byte	0
+	.byte	0
+	.section	.debug_aranges,"",@progbits
+	.long	0x2c
+	.value	0x2
+	.long	.Ldebug_info0
+	.byte	0x8
+	.byte	0
+	.value	0
+	.value	0
+	.quad	.Ltext0
+	.quad	.Letext0-.Ltext0
+	.quad	0
+	.quad	0
+	.section	.debug_line,"",@progbits
+.Ldebug_line0:
+	.section	.debug_str,"MS",@progbits,1
+.LASF10:
+	.string	"long long int"
+.LASF50:
+	.string	"ostreamTest"
+.LASF17:
+	.string	"tpossTest"
+.LASF44:
+	.string	"listTestSuite"
+.LASF45:
+	.string	"bitvTestSuite"
+.LASF56:
+	.string	"String"
+.LASF15:
+	.string	"testAllPassed"
+.LASF35:
+	.string	"jflowTest"
+.LASF22:
+	.string	"tibupTest"
+.LASF57:
+	.string	"fluidLevel"
+.LASF26:
+	.string	"tformTest"
+.LASF11:
+	.string	"float"
+.LASF47:
+	.string	"bintTestSuite"
+.LASF13:
+	.string	"theArgc"
+.LASF4:
+	.string	"unsigned char"
+.LASF43:
+	.string	"tsetTestSuite"
+.LASF31:
+	.string	"srcposTest"
+.LASF24:
+	.string	"symeTest"
+.LASF2:
+	.string	"long unsigned int"
+.LASF5:
+	.string	"short unsigned int"
+.LASF61:
+	.string	"testShouldRun"
+.LASF25:
+	.string	"scobindTest"
+.LASF16:
+	.string	"testIntEqual"
+.LASF46:
+	.string	"errorSetTestSuite"
+.LASF53:
+	.string	"argv"
+.LASF20:
+	.string	"annotateAbSynTest"
+.LASF33:
+	.string	"tinferTest"
+.LASF12:
+	.string	"double"
+.LASF30:
+	.string	"absynTest"
+.LASF60:
+	.string	"main"
+.LASF37:
+	.string	"flogTest"
+.LASF28:
+	.string	"abcheckTest"
+.LASF34:
+	.string	"jcodeTest"
+.LASF48:
+	.string	"intTestSuite"
+.LASF42:
+	.string	"fnameTest"
+.LASF3:
+	.string	"unsigned int"
+.LASF9:
+	.string	"char"
+.LASF55:
+	.string	"GNU C99 12.2.0 -mtune=generic -march=x86-64 -g -O0 -std=c99 -fasynchronous-unwind-tables"
+.LASF18:
+	.string	"genfoamTestSuite"
+.LASF39:
+	.string	"forgTest"
+.LASF23:
+	.string	"symeSetTestSuite"
+.LASF59:
+	.string	"strcmp"
+.LASF40:
+	.string	"foamTest"
+.LASF41:
+	.string	"archiveTestSuite"
+.LASF58:
+	.string	"testShowSummary"
+.LASF54:
+	.string	"name"
+.LASF49:
+	.string	"floatTestSuite"
+.LASF38:
+	.string	"formatTest"
+.LASF7:
+	.string	"short int"
+.LASF36:
+	.string	"javaTestSuite"
+.LASF8:
+	.string	"long int"
+.LASF51:
+	.string	"printfTest"
+.LASF6:
+	.string	"signed char"
+.LASF19:
+	.string	"retypeTest"
+.LASF27:
+	.string	"ablogTest"
+.LASF29:
+	.string	"abnormTest"
+.LASF21:
+	.string	"tfsatTest"
+.LASF14:
+	.string	"theArgv"
+.LASF52:
+	.string	"argc"
+.LASF32:
+	.string	"stabTest"
+	.section	.debug_line_str,"MS",@progbits,1
+.LASF1:
+	.string	"/repo/aldor/aldor/src"
+.LASF0:
+	.string	"test/testall.c"
+	.ident	"GCC: (Debian 12.2.0-14+deb12u1) 12.2.0"
+	.section	.note.GNU-stack,"",@progbits
